@@ -16,6 +16,7 @@ import impl
 
 ID = "C20"
 THEOREMS = ["dump_injective", "hash_separates_selfDelimiting", "renderInj_selfDelimiting", "lex_render", "tokOK_all", "scanStr_append", "toks_injective", "dump_injective_partial", "hash_separates", "hash_congr", "hash_total"]
+LEANCHECKER_MODULES = ["Fadl.Props.C20Render", "Fadl.Props.C20"]  # re-checked by leanchecker in the thorough tier
 RULE = (
     "seeded queries (gen/expr.py) decorated with string/bytes/float/complex constants over ASCII, Latin-1, "
     "BMP and astral characters, quotes and brackets; each is hashed as parsed, re-parsed from re-formatted "
